@@ -53,7 +53,9 @@ def bias(y_pred, y_test):
         The mean bias in percent.
 
     """
-    return np.mean(100.0 * y_test - y_pred / y_test)
+    y_pred = np.asarray(y_pred).ravel()
+    y_test = np.asarray(y_test).ravel()
+    return np.mean(100.0 * (y_pred - y_test) / y_test)
 
 
 def quantile_score(y_tau, y_test, taus):
